@@ -182,7 +182,7 @@ func c04exec(cfg c04cfg, ops []c04op, edges map[string]int) (cat, what string) {
 	running := true
 	finished := false
 
-	quiescent := func(when string) (string, string) {
+	quiescent0 := func(when string, ttyErrs []string) (string, string) {
 		var probs []string
 		bad := func(reg, f string, a ...any) {
 			probs = append(probs, reg+"\x00"+fmt.Sprintf(f, a...))
@@ -247,7 +247,7 @@ func c04exec(cfg c04cfg, ops []c04op, edges map[string]int) (cat, what string) {
 				bad("title", "window title is %q (stack depth %d), was %q before Init", term.Title, len(term.TitleStack), "orig-title")
 			}
 		}
-		if errs, _, _ := ft.Snapshot(); len(errs) > 0 {
+		if errs := ttyErrs; len(errs) > 0 {
 			bad("tty-contract", "%s", errs[0])
 		}
 		if len(probs) > 0 {
@@ -256,7 +256,7 @@ func c04exec(cfg c04cfg, ops []c04op, edges map[string]int) (cat, what string) {
 		}
 		return "", ""
 	}
-	resumed := func() (string, string) {
+	resumed0 := func(ttyErrs []string) (string, string) {
 		if len(term.Errors) > 0 {
 			return "", ""
 		}
@@ -282,7 +282,7 @@ func c04exec(cfg c04cfg, ops []c04op, edges map[string]int) (cat, what string) {
 		if hasFocus && term.Modes[1004] != focus {
 			bad("focus", "after Resume focus reporting is %v, the application wants %v", term.Modes[1004], focus)
 		}
-		if errs, _, _ := ft.Snapshot(); len(errs) > 0 {
+		if errs := ttyErrs; len(errs) > 0 {
 			bad("tty-contract", "%s", errs[0])
 		}
 		if len(probs) > 0 {
@@ -290,6 +290,18 @@ func c04exec(cfg c04cfg, ops []c04op, edges map[string]int) (cat, what string) {
 			return "resume:" + parts[0], parts[1]
 		}
 		return "", ""
+	}
+	// the emulator is fed from Tty.Write under the tty lock; judge it under the same lock
+	// (a resize processed by the main loop may still be drawing when Resume has returned)
+	quiescent := func(when string) (a, b string) {
+		errs, _, _ := ft.Snapshot()
+		ft.Locked(func() { a, b = quiescent0(when, errs) })
+		return
+	}
+	resumed := func() (a, b string) {
+		errs, _, _ := ft.Snapshot()
+		ft.Locked(func() { a, b = resumed0(errs) })
+		return
 	}
 	defer func() {
 		if !finished {
